@@ -245,6 +245,11 @@ Proof.
   - destruct (N.eqb (sc_id y) cid); [reflexivity|exact IH].
 Qed.
 
+Lemma frame_scans s s' : frame s s' -> ms_scans s' = ms_scans s.
+Proof. intros [_ [_ [_ [_ [_ [_ E]]]]]]. exact E. Qed.
+Lemma frame_mem s s' : frame s s' -> ms_mem s' = ms_mem s.
+Proof. intros [_ [_ [E _]]]. exact E. Qed.
+
 Section Frames.
 Variable c : cfg.
 
@@ -254,8 +259,8 @@ Proof.
   - cbn [fst]. unfold do_write. cbv zeta. apply find_scan_scans. cbn [ms_scans]. apply write_fold_fields.
   - destruct (ms_imm s); reflexivity.
   - destruct (ms_imm s) as [im|]; [|reflexivity]. cbn [fst]. unfold do_flushdone. cbv zeta.
-    apply find_scan_scans. unfold clear_imm. cbn [ms_scans upd_mt set_mts]. apply install_new_frame.
-  - cbn [fst]. apply find_scan_scans. apply install_new_frame.
+    apply find_scan_scans. unfold clear_imm. cbn [ms_scans upd_mt set_mts]. apply frame_scans. apply install_new_frame.
+  - cbn [fst]. apply find_scan_scans. apply frame_scans. apply install_new_frame.
   - reflexivity.
   - reflexivity.
   - apply N.eqb_neq in Ha. destruct (find_scan s c'); [reflexivity|]. unfold do_open. cbv zeta.
@@ -269,7 +274,7 @@ Proof.
     { intros s3 E3. unfold find_scan. cbn [ms_scans set_scans]. rewrite E3. apply find_scan_app. cbn [sc_id]. exact Ha. }
     destruct (cf_holds_ver c).
     + destruct (cf_cache c); apply H; exact E2.
-    + rewrite (find_scan_scans _ _ cid (proj1 (proj2 (proj2 (proj2 (proj2 (proj2 (proj2 (proj1 (vref_drop_frame _ _)))))))))).
+    + rewrite (find_scan_scans _ _ cid (frame_scans _ _ (proj1 (vref_drop_frame _ _)))).
       destruct (cf_cache c); apply H; exact E2.
   - apply N.eqb_neq in Ha. destruct (find_scan s c') as [sc|]; [|reflexivity]. unfold do_step. cbv zeta.
     destruct (freed_any s (xmems (sc_x sc))); [reflexivity|].
@@ -286,7 +291,7 @@ Proof.
     { rewrite (find_scan_scans _ s1) by apply (fold_upd_fields (mt_drop_iter c) (sc_mems sc) s1).
       unfold find_scan, s1. cbn [ms_scans set_scans]. now apply find_scan_filter. }
     destruct (sc_holds sc); [|exact E2].
-    rewrite (find_scan_scans _ _ cid (proj1 (proj2 (proj2 (proj2 (proj2 (proj2 (proj2 (proj1 (vref_drop_frame _ _)))))))))). exact E2.
+    rewrite (find_scan_scans _ _ cid (frame_scans _ _ (proj1 (vref_drop_frame _ _)))). exact E2.
 Qed.
 
 Lemma mem_frame s e : e <> ERollover -> ms_mem (fst (mstep c s e)) = ms_mem s.
@@ -294,8 +299,8 @@ Proof.
   intros Hne. destruct e as [b| |fid|levels|fs|fs|c' lo hi|c' o|c']; cbn [mstep]; try congruence.
   - cbn [fst]. unfold do_write. cbv zeta. cbn [ms_mem]. apply write_fold_fields.
   - destruct (ms_imm s) as [im|]; [|reflexivity]. cbn [fst]. unfold do_flushdone. cbv zeta.
-    unfold clear_imm. cbn [ms_mem upd_mt set_mts]. apply install_new_frame.
-  - cbn [fst]. apply install_new_frame.
+    unfold clear_imm. cbn [ms_mem upd_mt set_mts]. apply frame_mem. apply install_new_frame.
+  - cbn [fst]. apply frame_mem. apply install_new_frame.
   - reflexivity.
   - reflexivity.
   - destruct (find_scan s c'); [reflexivity|]. unfold do_open. cbv zeta.
@@ -305,7 +310,7 @@ Proof.
     destruct (negb (forallb (openable s2) _)); [exact E2|]. cbn [fst].
     destruct (cf_holds_ver c).
     + destruct (cf_cache c); exact E2.
-    + rewrite (proj1 (proj2 (proj2 (proj1 (vref_drop_frame _ _))))). destruct (cf_cache c); exact E2.
+    + rewrite (frame_mem _ _ (proj1 (vref_drop_frame _ _))). destruct (cf_cache c); exact E2.
   - destruct (find_scan s c') as [sc|]; [|reflexivity]. unfold do_step. cbv zeta.
     destruct (freed_any s (xmems (sc_x sc))); [reflexivity|].
     destruct (negb (forallb (openable s) _)); [reflexivity|]. cbn [fst]. destruct (cf_cache c); reflexivity.
@@ -313,6 +318,6 @@ Proof.
     set (s1 := set_scans s _).
     assert (ms_mem (fold_left (fun s m => upd_mt (mt_drop_iter c) m s) (sc_mems sc) s1) = ms_mem s) as E2
       by (rewrite (proj1 (proj2 (fold_upd_fields (mt_drop_iter c) (sc_mems sc) s1))); reflexivity).
-    destruct (sc_holds sc); [|exact E2]. rewrite (proj1 (proj2 (proj2 (proj1 (vref_drop_frame _ _))))). exact E2.
+    destruct (sc_holds sc); [|exact E2]. rewrite (frame_mem _ _ (proj1 (vref_drop_frame _ _))). exact E2.
 Qed.
 End Frames.
